@@ -348,6 +348,11 @@ func fieldLife(c *ctx, r *rand.Rand, vals []*big.Int) {
 		}
 		observe(op, arg, ctrl, flag)
 	}
+	// wide strings aimed at the carries of a special-form fold (round 8), into the live object
+	for _, w := range wideFoldInputs(r) {
+		obj.SetWideBytes(w)
+		observe("wide", hx(w), 0, -1)
+	}
 	// systematic part: every kind of receiver (how the object came to be) x every kind of operand x every mutator
 	{
 		rv := func() *big.Int { return vals[r.Intn(len(vals))] }
